@@ -792,3 +792,57 @@ func init() {
 	register("C16", Rule{"R16h", ruleExtensionRuleAgrees})
 	register("C15", Rule{"R16h", ruleExtensionRuleAgrees})
 }
+
+// R16i: whether a path names a file or a directory is not decided from its spelling.  Directory names may contain
+// dots (`lib@v1.2.3`, `api.v2`): stepping to the parent because `filepath.Ext` is non-empty starts the module-root
+// walk one level too high and resolves `//{/x}` against an enclosing module.
+func ruleNoDirByExtension(p *Program, r *Report) {
+	r.Begin("R16i", "file-or-directory is not guessed from the name: in package syntax no filepath.Dir / path.Dir application is control-dependent on a test of filepath.Ext / path.Ext (a directory whose name contains a dot would be taken for a file and the module-root search would start at its parent)", 0)
+	defer r.End()
+	n := 0
+	for _, fn := range p.RepoFns {
+		if PkgPathOf(fn) != Mod+"/syntax" || fn.Blocks == nil {
+			continue
+		}
+		var pd *PostDom
+		ord := 0
+		ForEachInstr(fn, func(ins ssa.Instruction) {
+			c, ok := ins.(*ssa.Call)
+			if !ok {
+				return
+			}
+			nm := CalleeName(&c.Call)
+			if nm != "path/filepath.Dir" && nm != "path.Dir" {
+				return
+			}
+			if pd == nil {
+				pd = NewPostDom(fn)
+			}
+			for _, cd := range pd.ControlDeps(c.Block()) {
+				cond := IfCond(cd.Br)
+				if cond == nil {
+					continue
+				}
+				if DependsOn(cond, func(x ssa.Value) bool {
+					cc, ok := x.(*ssa.Call)
+					if !ok {
+						return false
+					}
+					m := CalleeName(&cc.Call)
+					return m == "path/filepath.Ext" || m == "path.Ext"
+				}) {
+					n++
+					ord++
+					r.Fn(FnName(fn))
+					r.Viol(fmt.Sprintf("dir-by-ext@%s~%d", FnName(fn), ord), fmt.Sprintf("%s takes the parent directory of a path when the path has an extension: a directory named like `lib@v1.2.3` or `api.v2` is mistaken for a file, the search for the module root starts above it and root imports resolve against the enclosing module", FnName(fn)), c.Pos())
+					return
+				}
+			}
+		})
+	}
+	if n == 0 {
+		r.OK("dir-by-ext", "no Dir() under an Ext() test in package syntax", 0)
+	}
+}
+
+func init() { register("C16", Rule{"R16i", ruleNoDirByExtension}) }
